@@ -78,7 +78,9 @@ RejectedNowLeaves == IntBeyond \cup Unencodable \cup {"time_aware"}           \*
 ---------------------------------------------------------------------------------------------------------------------
 (* the term algebra, by levels *)
 Leaves == {Leaf(c) : c \in LeafClasses}
-SibsFull == {Leaf("txt_ctrl"), Leaf("int_i64min"), Leaf("flt_nan"), Leaf("unsupported")}
+SibsIn == {Leaf("txt_ctrl"), Leaf("int_i64min"), Leaf("flt_negzero"), Leaf("path")}      \* promised siblings
+SibsOut == {Leaf("flt_nan"), Leaf("unsupported")}                                         \* siblings outside the promise
+SibsFull == SibsIn \cup SibsOut
 SibsFew == {Leaf("txt_ctrl")}
 KeysOuter == IF Wide THEN KeysText \cup KeysBad ELSE {"k_ascii", "k_ctrl", "k_int"}
 
@@ -98,10 +100,18 @@ Containers(X, keys, sibs) ==
 Empties == {N("list", "", <<>>, <<>>), N("dict", "", <<>>, <<>>)}
 
 T0 == Leaves
-T1 == Containers(T0, KeysText \cup KeysBad, SibsFull) \cup Empties \cup SetsOf("set") \cup SetsOf("frozenset")
-T2 == Containers(T1, KeysOuter, IF Wide THEN SibsFull ELSE SibsFew)
-T3 == Containers(T2, {"k_ascii", "k_int"}, {})
-Terms == T0 \cup T1 \cup (IF Depth >= 2 THEN T2 ELSE {}) \cup (IF Depth >= 3 THEN T3 ELSE {})
+Seeds == T0 \cup Empties \cup SetsOf("set") \cup SetsOf("frozenset")      \* terms that are not "a container of a term"
+
+(* Level n+1 is obtained by wrapping a term of level n into container shapes; the state machine below does that one
+   term at a time (Next), so that TLC's workers share the enumeration.  A term inside the promised domain is wrapped into
+   EVERY shape at every level (this is where the statement binds); a term outside it is wrapped into every shape once
+   (level 1) and afterwards only into the few shapes of WrapOutside, up to level 2: what matters there is that the
+   promised siblings stay faithful and that no invalid or partial line appears. *)
+KeysAt(h) == IF h = 1 THEN KeysText \cup KeysBad ELSE IF h = 2 THEN KeysOuter ELSE {"k_ascii", "k_astral", "k_int"}
+SibsAt(h) == IF h = 1 THEN SibsFull ELSE IF h = 2 THEN (IF Wide THEN SibsFull ELSE SibsFew) ELSE SibsFew
+WrapOutside(x) == {N("list", "", <<>>, <<x>>), N("list", "", <<>>, <<x, Leaf("txt_ctrl")>>), N("list", "", <<>>, <<Leaf("txt_astral"), x>>),
+                   N("dict", "", <<"k_ascii">>, <<x>>), N("dict", "", <<"k_ctrl", "k_astral">>, <<Leaf("int_i64max"), x>>),
+                   N("custom", "", <<>>, <<x>>)}
 
 RECURSIVE Height(_)
 Height(v) == IF v.kids = <<>> THEN (IF v.k = "leaf" THEN 0 ELSE 1)
@@ -194,8 +204,13 @@ ShowO(o) == LET ks == [i \in DOMAIN o.kids |-> ShowO(o.kids[i])] IN
               [] OTHER -> o.o \o "(" \o JoinSeq(ks, ",") \o ")"
 
 ---------------------------------------------------------------------------------------------------------------------
-Init == case \in [v : Terms, mode : Modes, dflt : Defaults]
-Next == UNCHANGED case
+Init == case \in [v : Seeds, mode : Modes, dflt : Defaults]
+Wraps(v) == LET h == Height(v) IN
+            IF h >= Depth THEN {}
+            ELSE IF h = 0 \/ InDomain(v, "caller") THEN Containers({v}, KeysAt(h + 1), SibsAt(h + 1))
+            ELSE IF h < 2 THEN WrapOutside(v)
+            ELSE {}
+Next == \E w \in Wraps(case.v) : case' = [case EXCEPT !.v = w]
 Spec == Init /\ [][Next]_case
 
 E == Expected(case.v, case.mode, case.dflt)
